@@ -18,6 +18,8 @@ edits = (
  ("autograd/numpy/numpy_vspaces.py", "    def zeros(self):\n", '        """The zero vector."""\n'),
  ("autograd/wrap_util.py", "def unary_to_nary(unary_operator):\n", '    """Lift an operator on unary functions to n-ary functions."""\n'),
  ("autograd/tracer.py", "def find_top_boxed_args(args):\n", '    """The boxes of the innermost trace among args."""\n'),
+ ("autograd/core.py", "def translate_jvp(jvpfun, fun, argnum):\n", '    """Turn None / the string same / a callable into a forward rule."""\n'),
+ ("autograd/core.py", "def defjvp(fun, *jvpfuns, **kwargs):\n", '    """Register one forward rule per positional argument."""\n'),
  ("autograd/tracer.py", "def register_notrace(trace_type, primitive_fun):\n", '    """Calls of primitive_fun are not recorded for this kind of node."""\n'),
  ("autograd/numpy/numpy_vjps.py", "nograd_functions = [\n", '    # rounding functions first\n'),
 )
